@@ -457,7 +457,7 @@ class QasmProcessor:
                 raise NotImplementedError(
                     ("QASM: reset functionality " "is not supported.")
                 )
-            elif command[0] in ["barrier", "include"]:
+            elif command[0] == "include":
                 continue
             else:
                 unprocessed.append(num)
@@ -966,6 +966,9 @@ class QasmProcessor:
             if command[0] in self.gate_names:
                 # adds gates to the QubitCircuit
                 self._gate_add(qc, command, custom_gates)
+            elif command[0] == "barrier":
+                # no operation is added, the arguments are only validated
+                list(self._regs_processor(command[1:], "barrier"))
             elif command[0] == "measure":
                 # adds measurement to the QubitCircuit
                 reg_set = self._regs_processor(command[1:], "measure")
